@@ -6,11 +6,11 @@
       raw text, {print e} with directives (|d₁:a₁,…|d₂ …, arguments in the expression fragment), {css},
       {debugger}, {log}, {if}/{elseif}/{else},
       {switch}/{case}/{default} (the matching case wherever it stands, else the first {default}),
-      {foreach $x in L}…{ifempty}… / {for $i in L} with L a list literal [e₁, …], range(a[, b[, s]]) or a
-        variable $l,
+      {foreach $x in L}…{ifempty}… / {for $i in L} with L any expression of the fragment (a list literal, a
+        range, a variable, an access chain `$x.items`, …),
       {let $x: e /}, {let $x}…{/let},
-      {call} without a data attribute, with data="all", with data="$m" (a variable) or data="[k₁: e₁, …]" (a
-        map literal), with value params and content params ({param k}…{/param}),
+      {call} without a data attribute, with data="all", with data="e" for any expression of the fragment (a
+        variable, an access chain, a map literal, …), with value params and content params ({param k}…{/param}),
       {msg} (text, placeholders — commands of the fragment or HTML tags —, {plural}), without a message bundle
         and THROUGH one (a message without a translation: its source; a translation: raw text, placeholder
         parts = the source placeholder of that name, plural parts = the form the bundle's plural function
@@ -18,14 +18,15 @@
         interpreter's — `modelMsgSem`),
       header params
       — nested arbitrarily, templates calling templates to any depth (`render_refines_lexical_partial`),
-      with expressions of the scalar operator fragment of Props/C01.lean,
+      with expressions of the fragment of Props/C01.lean,
 
-  over data whose values are scalars or — under the names `coll`, which the scalar expressions do not
-  read — lists of scalars and maps of scalars: whenever the lexical specification yields text, the model's
+  over ANY data (scalars, lists, maps, nested): whenever the lexical specification yields text, the model's
   walk (dynamic scope stack over a heap of frames, Model/Eval.lean) ends ok having written exactly that
   text, and the bindings visible afterwards are exactly those of the specification's environment — in
   particular a `let` is visible to the end of its block and not after it, and shadows an outer name only
-  there; whenever the specification yields an error the model yields an error.
+  there; whenever the specification yields an error the model yields an error.  Expressions are those of
+  Props/C01's fragment: access chains, list / map literals, the builtins isNonnull / length / strContains /
+  hasData / range / min / max, all operators.
 
   data="all": `Rel` carries, next to the bindings, `EntRel`: the frames `alldata` passes from the running
   scope bind exactly the specification's `entry` bindings, and the top (let) frame is not among them — so
@@ -44,9 +45,8 @@
   `foreach_over_value_refines` / `list_variable_agrees` are the {foreach}-over-a-value statements of the
   earlier rounds (now instances of the fragment: `forc_core` with `ValSim.of_var`).
 
-  Still outside (exactly): expressions beyond Props/C01's scalar operator fragment (accesses, collection
-  literals other than a loop's list literal and a call's map literal, functions other than a loop's range —
-  hence also `index` / `isFirst` / `isLast`), collections nested in collections.  Those are covered by the
+  Still outside (exactly): what is outside Props/C01's expression fragment — `$ij`, index / isFirst / isLast,
+  keys, augmentMap, round / floor / ceiling, randomInt, a map literal repeating a key (except as {call} data).  Those are covered by the
   scoping theorems of Props/C02.lean and by the Spec.render oracle of the C02exec correspondence.
 -/
 import SoyVerif.Lemmas.ExecRefine
@@ -75,18 +75,16 @@ def mapFrag : MapItems → Bool
   | .nil => true
   | .cons _ e r => frag e && mapFrag r
 
-/-- what a {call} passes as data="…": a map literal of scalars, a variable -/
-def dataFrag : Expr → Bool
-  | .map _ items => mapFrag items
-  | .dataRef _ key .nil => key != sIj && !C01.isHelper key
-  | _ => false
+/-- what a {call} passes as data="…": any expression of the fragment (a variable, an access chain, a map
+    literal, …); a map literal may also repeat a key (the first item wins on both sides) -/
+def dataFrag (d : Expr) : Bool :=
+  frag d || (match d with
+    | .map _ items => mapFrag items
+    | _ => false)
 
-/-- what a {foreach} / {for} ranges over: a list literal, a range, a variable -/
-def listFrag : Expr → Bool
-  | .list _ items => fragList items
-  | .func _ name args => name == fRange && fragList args
-  | .dataRef _ key .nil => key != sIj && !C01.isHelper key
-  | _ => false
+/-- what a {foreach} / {for} ranges over: any expression of the fragment (a list literal, a range, a
+    variable, an access chain, …) -/
+def listFrag (e : Expr) : Bool := frag e
 
 mutual
 def cfrag : Cmd → Bool
@@ -798,21 +796,7 @@ theorem ValSim.of_var {ctx : Scope} {st : St} {env : Spec.Eval.Env} (hr : Rel g 
 
 /-- what a loop ranges over, in the `ValSim` form -/
 theorem listFrag_sim {ctx : Scope} {st : St} {env : Spec.Eval.Env} (hr : Rel g entry ctx st env) (E : Expr)
-    (hf : listFrag E = true) : ValSim g E ctx st env := by
-  cases E with
-  | list p items => exact ValSim.of_list g (evalIn_list_sim hr p items (by simpa [listFrag] using hf))
-  | func p name args =>
-    simp only [listFrag, Bool.and_eq_true, beq_iff_eq] at hf
-    obtain ⟨hn, ha⟩ := hf
-    subst hn
-    exact ValSim.of_list g (evalIn_range_sim hr p args ha)
-  | dataRef p key acc =>
-    cases acc with
-    | nil =>
-      simp only [listFrag, Bool.and_eq_true, bne_iff_ne, ne_eq, Bool.not_eq_true'] at hf
-      exact ValSim.of_var g entry hr p key (by simpa using hf.1) hf.2
-    | cons _ _ => simp [listFrag] at hf
-  | _ => simp [listFrag] at hf
+    (hf : listFrag E = true) : ValSim g E ctx st env := evalIn_sim hr E hf
 
 /-- a map-valued evaluation against the specification's: the same bindings -/
 def MapSim (v : Val) : Value → Prop
@@ -838,25 +822,23 @@ theorem DataSim.of_valSim {d : Expr} {ctx : Scope} {st : St} {env : Spec.Eval.En
 /-- what a {call} passes as data, in the `DataSim` form -/
 theorem dataFrag_sim {ctx : Scope} {st : St} {env : Spec.Eval.Env} (hr : Rel g entry ctx st env) (d : Expr)
     (hf : dataFrag d = true) : DataSim g d ctx st env := by
-  cases d with
-  | map p items =>
-    have h := evalMapItems_sim hr.base items (by simpa [dataFrag] using hf) st.next
-    rw [DataSim, Spec.Eval.eval]
-    refine ⟨fun v hv => ?_, fun herr => ?_⟩
-    · obtain ⟨B, hv1, hv⟩ := C01.bind_val hv
-      obtain ⟨kvs, n', h1, h2⟩ := h.1 B hv1
-      simp only [Out.val.injEq] at hv
-      refine ⟨.map n' kvs, { st with next := n' + 1 }, by simp [evalIn, evalE, h1], ⟨B, hv.symm, h2⟩, rfl, rfl⟩
-    · rcases C01.bind_err herr with h' | ⟨vs, _, h'⟩
-      · simp [evalIn, evalE, h.2 h']
-      · simp at h'
-  | dataRef p key acc =>
-    cases acc with
-    | nil =>
-      simp only [dataFrag, Bool.and_eq_true, bne_iff_ne, ne_eq, Bool.not_eq_true'] at hf
-      exact DataSim.of_valSim g (ValSim.of_var g entry hr p key (by simpa using hf.1) hf.2)
-    | cons _ _ => simp [dataFrag] at hf
-  | _ => simp [dataFrag] at hf
+  by_cases hfr : frag d = true
+  · exact DataSim.of_valSim g (evalIn_sim hr d hfr)
+  · have hfr' : frag d = false := by simpa using hfr
+    simp only [dataFrag, hfr', Bool.false_or] at hf
+    cases d with
+    | map p items =>
+      have h := evalMapItems_sim hr.base items hf st.next
+      rw [DataSim, Spec.Eval.eval]
+      refine ⟨fun v hv => ?_, fun herr => ?_⟩
+      · obtain ⟨B, hv1, hv⟩ := C01.bind_val hv
+        obtain ⟨kvs, n', h1, h2⟩ := h.1 B hv1
+        simp only [Out.val.injEq] at hv
+        refine ⟨.map n' kvs, { st with next := n' + 1 }, by simp [evalIn, evalE, h1], ⟨B, hv.symm, h2⟩, rfl, rfl⟩
+      · rcases C01.bind_err herr with h' | ⟨vs, _, h'⟩
+        · simp [evalIn, evalE, h.2 h']
+        · simp at h'
+    | _ => simp at hf
 
 /-- a list of expressions (the arguments of a directive), left to right -/
 theorem evalList_sim {ctx : Scope} {env : Spec.Eval.Env} : ∀ (es : List Expr), es.all (frag) = true → ∀ (st : St),
@@ -2735,6 +2717,48 @@ example : (execute gMsgB [116] dataMsg 4).cls = .ok ∧
   have hs : Spec.Eval.render gMsgB.reg (absK gMsgB.globals) none true [116] (absK dataMsg) 4
       (some { dirs := none, msgs := some (modelMsgSem bundleB) }) =
       .val [91, 51, 124, 111, 117, 116, 93, 51, 32, 118, 105, 101, 108, 101] := by rfl
+  rw [hs] at h
+  exact h
+
+/-! ### accesses, collection literals and builtins in a program: on x = {items: [{name: 'a', tag: null}, {name: 'b', tag: 'T'}]}
+
+      {foreach $it in $x.items}{$it.name}{if isNonnull($it.tag)}:{$it.tag}{/if}{/foreach}{length($x.items)}
+      {call .d data="['x': $x.items[0].name, 'p': min(1, 2)]" /}
+
+    with .d = `[{$p}{$x}]`: "ab:T2[1a]" -/
+
+def kItems : Bytes := [105, 116, 101, 109, 115]
+def kName : Bytes := [110, 97, 109, 101]
+def kTag : Bytes := [116, 97, 103]
+def kIt : Bytes := [105, 116]
+
+def tAcc : Registry.Tmpl :=
+  { name := [116], params := [],
+    body := .mk 1 (.cons (.forc 1 kIt (.dataRef 1 [120] (.cons (.key 1 false kItems) .nil))
+        (.mk 2 (.cons (.print 2 (.dataRef 2 kIt (.cons (.key 2 false kName) .nil)) [])
+          (.cons (.ifc 3 (.cons 3 (some (.func 3 fIsNonnull (.cons (.dataRef 3 kIt (.cons (.key 3 false kTag) .nil)) .nil)))
+            (.mk 4 (.cons (.rawText 4 [58]) (.cons (.print 4 (.dataRef 4 kIt (.cons (.key 4 false kTag) .nil)) []) .nil))) .nil)) .nil))) none)
+      (.cons (.print 5 (.func 5 fLength (.cons (.dataRef 5 [120] (.cons (.key 5 false kItems) .nil)) .nil)) [])
+      (.cons (.call 6 [100] false (some (.map 6 (.cons [120]
+          (.dataRef 6 [120] (.cons (.key 6 false kItems) (.cons (.index 6 false 0) (.cons (.key 6 false kName) .nil))))
+          (.cons [112] (.func 6 fMin (.cons (.int 6 1) (.cons (.int 6 2) .nil))) .nil)))) .nil) .nil))),
+    autoescape := .unspecified, nsName := [110], nsAutoescape := .unspecified, pos := 0, file := [102], text := [] }
+
+def gAcc : GEnv := { reg := [tAcc, tCalleeAll], globals := [], ij := none, msgs := none, tbl := [], oblig := [] }
+
+def dataAcc : Frame := [([120], .map 3 [(kItems, .list 4
+  [.map 5 [(kName, .str [97]), (kTag, .null)], .map 6 [(kName, .str [98]), (kTag, .str [84])]])])]
+
+set_option maxHeartbeats 4000000 in
+example : (execute gAcc [116] dataAcc 4).cls = .ok ∧
+    (execute gAcc [116] dataAcc 4).chunks.flatten = [97, 98, 58, 84, 50, 91, 49, 97, 93] := by
+  have hfr : regFrag gAcc.reg := by
+    intro t ht
+    simp only [gAcc, List.mem_cons, List.mem_nil_iff, or_false] at ht
+    rcases ht with rfl | rfl <;> decide
+  have h := render_refines_lexical_partial gAcc rfl hfr [116] dataAcc 4 none false none ⟨fun _ => rfl, fun _ h => by cases h⟩ (fun _ h => by cases h)
+  have hs : Spec.Eval.render gAcc.reg (absK gAcc.globals) none false [116] (absK dataAcc) 4 =
+      .val [97, 98, 58, 84, 50, 91, 49, 97, 93] := by rfl
   rw [hs] at h
   exact h
 
